@@ -620,7 +620,15 @@ func (r *stateResolverV2) calculateFullAuthChainAndConflictedSubgraph(
 			conflictedSubgraphEventIDs := append(slices.Clone(curr.visiting), curr.pdu.EventID())
 			fmt.Printf("found conflicted subgraph %v\n", conflictedSubgraphEventIDs)
 			for _, eventID := range conflictedSubgraphEventIDs {
-				conflictedSubgraph.Insert(r.authEventMap[eventID])
+				// the path starts and ends at conflicted events, which need not be auth events
+				ev, ok := r.authEventMap[eventID]
+				if !ok {
+					ev, ok = r.conflictedEventMap[eventID]
+				}
+				if !ok {
+					continue
+				}
+				conflictedSubgraph.Insert(ev)
 			}
 		}
 
